@@ -47,6 +47,7 @@ type c09 struct {
 	w        []int // op weights
 	items    [][]byte
 	big      bool
+	marathon bool
 
 	// non-triviality
 	inserted, faultAfter, queryAfter bool
@@ -67,6 +68,14 @@ func (s *c09) Start(r *kit.Rng, cfg map[string]int64) {
 	if r.Chance(1, 4) {
 		s.maxSteps = r.Range(3, 10)
 	}
+	marathon := kit.Depth > 1 && r.Chance(1, 4000) // thorough tier only: such a run takes seconds
+	s.marathon = marathon
+	if marathon {
+		// one object used for a very long time (counters that wrap or
+		// saturate, thresholds on the number of insertions)
+		s.maxSteps = r.Range(66000, 72000)
+		s.st.Probe("marathon-run")
+	}
 	// swarm: each op kind enabled with its own weight, some disabled
 	s.w = make([]int, len(c09Kinds))
 	for i := range s.w {
@@ -80,6 +89,12 @@ func (s *c09) Start(r *kit.Rng, cfg map[string]int64) {
 	}
 	if s.w[3]+s.w[4] == 0 {
 		s.w[3+r.Intn(2)] = 5
+	}
+	if marathon {
+		for i := range s.w {
+			s.w[i] = 0
+		}
+		s.w[0], s.w[2], s.w[3], s.w[4], s.w[7], s.w[9] = 20, 5, 10, 3, 1, 1
 	}
 	// constructors are rare after the first step
 	s.w[11] = min(s.w[11], 1)
@@ -116,6 +131,11 @@ func c09Item(r *kit.Rng) []byte {
 	default:
 		return r.Bytes(r.Range(0, 70))
 	}
+}
+
+// marathonShape keeps very long histories affordable.
+func marathonShape(r *kit.Rng) []int64 {
+	return []int64{int64(r.Range(1, 64)), int64(r.Range(1, 12)), int64(r.U32()), int64(r.Intn(3))}
 }
 
 func c09Shape(r *kit.Rng) []int64 {
@@ -199,6 +219,9 @@ func (s *c09) gen0(r *kit.Rng) (kit.Op, bool) {
 		if r.Chance(1, 12) {
 			return kit.Op{K: "load_nil"}, true // a handle that starts unloaded
 		}
+		if s.marathon {
+			return kit.Op{K: "load", N: marathonShape(r)}, true
+		}
 		return kit.Op{K: "load", N: c09Shape(r)}, true
 	}
 	for {
@@ -213,7 +236,11 @@ func (s *c09) gen0(r *kit.Rng) (kit.Op, bool) {
 			idx := []uint32{0, 1, 2, 255, 256, 0xffffffff, r.U32()}[r.Intn(7)]
 			if k == "matchop" && s.cur >= 0 && len(s.msgs[s.cur].inserted) > 0 && r.Chance(1, 2) {
 				// an inserted outpoint or a near miss of one
-				for _, it := range s.msgs[s.cur].inserted {
+				ins := s.msgs[s.cur].inserted
+				if len(ins) > 64 {
+					ins = ins[len(ins)-64:]
+				}
+				for _, it := range ins {
 					if len(it) == 36 {
 						h = append([]byte(nil), it[:32]...)
 						idx = uint32(it[32]) | uint32(it[33])<<8 | uint32(it[34])<<16 | uint32(it[35])<<24
@@ -278,6 +305,9 @@ func (s *c09) genNewFilter(r *kit.Rng) kit.Op {
 }
 
 func (s *c09) pickItem(r *kit.Rng) []byte {
+	if s.marathon {
+		return r.Bytes(r.Range(1, 12))
+	}
 	if r.Chance(1, 8) || len(s.items) == 0 {
 		return c09Item(r)
 	}
@@ -654,22 +684,25 @@ func (s *c09) checkHandle() *kit.Violation {
 		}
 		return nil
 	}
-	if len(ins) <= 48 {
-		for _, it := range ins {
-			if v := check(it); v != nil {
-				return v
-			}
+	// newest first, then the oldest; bounded work per step (very long items
+	// times many hash functions would otherwise dominate long histories)
+	budget := 400000
+	try := func(it []byte) *kit.Violation {
+		cost := (len(it) + 16) * int(cur.mod.HashFuncs+1)
+		if budget < cost && budget < 400000 {
+			return nil
 		}
-	} else {
-		for _, it := range ins[:24] {
-			if v := check(it); v != nil {
-				return v
-			}
+		budget -= cost
+		return check(it)
+	}
+	for k := len(ins) - 1; k >= 0 && k >= len(ins)-24; k-- {
+		if v := try(ins[k]); v != nil {
+			return v
 		}
-		for _, it := range ins[len(ins)-24:] {
-			if v := check(it); v != nil {
-				return v
-			}
+	}
+	for k := 0; k < len(ins)-24 && k < 24; k++ {
+		if v := try(ins[k]); v != nil {
+			return v
 		}
 	}
 	return nil
